@@ -576,7 +576,7 @@ pub fn run(tier: &str, seed: u64) -> i32 {
     let d = DArms { max_depth: 2 };
     let budget = Budget {
         max_depth: if thorough { 2 } else { 1 },
-        wall: Duration::from_secs(if thorough { 900 } else { 45 }),
+        wall: Duration::from_secs(if thorough { 900 } else { 150 }),
         max_states: 10_000_000,
     };
     report.add(explore(&d, &budget, seed, |s, ctx| {
